@@ -637,7 +637,7 @@ func longTriples() []*vals.Spec {
 	a := vals.NodeSpec("/t", "a")
 	base := vals.MustBuild(vals.TripleSpec(a, vals.ImmSpec("long"), vals.ObjSpec(vals.TextSpec("")))).T.String()
 	var out []*vals.Spec
-	for _, total := range []int{longLine - 2, longLine - 1, longLine, longLine + 1, longLine + 2, 3 * longLine} {
+	for _, total := range []int{longLine - 2, longLine - 1, longLine, longLine + 1, longLine + 2, 3 * longLine, 1<<20 - 1, 1 << 20, 1<<20 + 1, 3 << 20} {
 		n := total - (len(base) + 1)
 		out = append(out, vals.TripleSpec(a, vals.ImmSpec("long"), vals.ObjSpec(vals.TextSpec(strings.Repeat("x", n)))))
 	}
